@@ -316,7 +316,8 @@ fn run_cmp(a: &Args, o: &mut Obs) {
     let nshards = a.usize("nshards", 1).max(1);
     let nrand = a.usize("random", 2000);
     let allreps = a.flag("all-reps");
-    let u = universe();
+    // `--no-exhaustive`: only the seeded pairs (used for the slices interpreted for other targets under Miri)
+    let u = if a.flag("no-exhaustive") { Vec::new() } else { universe() };
     let mut idx = 0usize;
     for (i, x) in u.iter().enumerate() {
         for (j, y) in u.iter().enumerate() {
@@ -341,8 +342,18 @@ fn run_cmp(a: &Args, o: &mut Obs) {
         let n = r.below(40);
         let mut x: Vec<u8> = (0..n).map(|_| *r.pick(&[0u8, 1, b'a', b'z', 0x7f, 0x80, 0xff, b'"'])).collect();
         let mut y = x.clone();
-        match r.below(5) {
+        match r.below(6) {
             0 => {}
+            5 => {
+                // two differing bytes of opposite sense inside one 8-byte block (word-at-a-time comparisons must
+                // still order by the FIRST differing byte), after a common prefix of whole words
+                if n >= 2 {
+                    let p = r.below(n - 1);
+                    let q = (p + 1 + r.below(7)).min(n - 1);
+                    y[p] = x[p].wrapping_add(1);
+                    y[q] = x[q].wrapping_sub(1);
+                }
+            }
             1 => y.truncate(r.below(n + 1)),
             2 => y.push(r.byte()),
             3 => {
